@@ -168,12 +168,17 @@ def parse(text):
 
 
 _STATE_HDR = re.compile(r"^State \d+:.*$|^STATE_\d+ ==.*$", re.M)
+_TRAILER = re.compile(r"^\\\*.*$|^={4,}\s*$", re.M)
 _VAR = re.compile(r"^/\\ ([A-Za-z_][A-Za-z0-9_]*) = ", re.M)
 
 
 def parse_state_block(block):
     """block: text of one state '/\\ v = val\\n/\\ w = val2 ...' -> dict var -> value"""
     st = {}
+    # -simulate trace files interleave "\* <Action line ...>" comment lines and end with a ==== line
+    cut = _TRAILER.search(block)
+    if cut:
+        block = block[: cut.start()]
     ms = list(_VAR.finditer(block))
     for j, m in enumerate(ms):
         end = ms[j + 1].start() if j + 1 < len(ms) else len(block)
